@@ -18,7 +18,7 @@ SPEC_BUILTINS = ('forall', 'exists', 'implies', 'iff', 'old', 'at', 'ite', 'fora
                  'exists_ref', 'allocated', 'fresh', 'typeof', 'unchanged', 'card',
                  'select', 'floor_div', 'truthy', 'is_none', 'dyn_is', 'subset',
                  'set_eq', 'set_minus', 'set_union', 'set_add', 'set_del', 'empty_set',
-                 'disjoint', 'has_key', 'keys_eq', 'seq_eq', 'let', 'setof')
+                 'disjoint', 'has_key', 'keys_eq', 'seq_eq', 'let', 'setof', 'dq_lo', 'dq_hi', 'dq_at')
 
 
 class Ctx(object):
@@ -718,8 +718,8 @@ class ExprMixin(object):
     if isinstance(a, (VClass, VFunc, VBound, VModule)) or isinstance(b, (VClass, VFunc, VBound, VModule)):
       if isinstance(a, VClass) and isinstance(b, VClass):
         return z3.BoolVal(a.name == b.name)
-      fa = z3.IntVal(a.fn_id) if isinstance(a, (VFunc, VBound)) else (a.t if isinstance(a, V) and a.ty.k in ('fn', 'any') else None)
-      fb = z3.IntVal(b.fn_id) if isinstance(b, (VFunc, VBound)) else (b.t if isinstance(b, V) and b.ty.k in ('fn', 'any') else None)
+      fa = z3.IntVal(a.fn_id) if isinstance(a, (VFunc, VBound, VClass)) else (a.t if isinstance(a, V) and a.ty.k in ('fn', 'any') else None)
+      fb = z3.IntVal(b.fn_id) if isinstance(b, (VFunc, VBound, VClass)) else (b.t if isinstance(b, V) and b.ty.k in ('fn', 'any') else None)
       if fa is not None and fb is not None:
         return fa == fb
       raise Unsupported('== on callables')
